@@ -380,41 +380,54 @@ theorem decCellP_np (u : Bytes → Bool) (t : CqlTy) (c : Option Bytes) : NPo (d
   | none => unfold decCellP; npo_leaf
   | some b => exact decValP_np u t b
 
-/-- `Row::deserialize`: the `expect` on the `0usize..` column counter needs more than `usize::MAX` columns. -/
-theorem rowP_np (u : Bytes → Bool) : ∀ (ts : List CqlTy) (idx : Nat) (bs : Bytes),
-    idx + ts.length ≤ USIZE_MAX → NPo (rowP u ts idx bs)
-  | [], _, _, _ => by unfold rowP; npo_leaf
-  | t :: ts, idx, bs, h => by
-    unfold rowP
-    simp only [List.length_cons] at h
-    split
-    · omega
-    · have h1 := readCqlBytesP_np bs
-      split
-      · rename_i s he; exact (npo_fwd h1 he).elim
-      · npo_leaf
-      · rename_i cell rest _
-        have h2 := decCellP_np u t cell
-        split
-        · rename_i s he; exact (npo_fwd h2 he).elim
-        · npo_leaf
-        · have h3 := rowP_np u ts (idx + 1) rest (by omega)
-          split
-          · rename_i s he; exact (npo_fwd h3 he).elim
-          · npo_leaf
-          · npo_leaf
-
-theorem rowsP_np (u : Bytes → Bool) (ts : List CqlTy) (hts : ts.length ≤ USIZE_MAX) :
-    ∀ (n done : Nat) (bs : Bytes), NPo (rowsP u ts n done bs)
-  | 0, _, _ => by unfold rowsP; npo_leaf
-  | n + 1, done, bs => by
-    unfold rowsP
-    have h1 := rowP_np u ts 0 bs (by omega)
+theorem skipCellsP_np : ∀ (n : Nat) (bs : Bytes), NPo (skipCellsP n bs)
+  | 0, _ => by unfold skipCellsP; npo_leaf
+  | n + 1, bs => by
+    unfold skipCellsP
+    have h1 := readCqlBytesP_np bs
     split
     · rename_i s he; exact (npo_fwd h1 he).elim
     · npo_leaf
-    · rename_i rest _
-      exact rowsP_np u ts hts n (done + 1) rest
+    · rename_i c rest _
+      npo_via (skipCellsP_np n rest)
+
+/-- `Row::deserialize`: the `expect` on the `0usize..` column counter needs more than `usize::MAX` columns. -/
+theorem decCellsP_np (u : Bytes → Bool) : ∀ (ts : List CqlTy) (idx : Nat) (cs : List (Option Bytes)),
+    idx + ts.length ≤ USIZE_MAX → NPo (decCellsP u ts idx cs)
+  | [], _, _, _ => by unfold decCellsP; npo_leaf
+  | _ :: _, _, [], _ => by unfold decCellsP; npo_leaf
+  | t :: ts, idx, c :: cs, h => by
+    unfold decCellsP
+    simp only [List.length_cons] at h
+    split
+    · omega
+    · have h2 := decCellP_np u t c
+      split
+      · rename_i s he; exact (npo_fwd h2 he).elim
+      · npo_leaf
+      · npo_via (decCellsP_np u ts (idx + 1) cs (by omega))
+
+theorem rowP_np (u : Bytes → Bool) (ts : List CqlTy) (hts : ts.length ≤ USIZE_MAX) (bs : Bytes) :
+    NPo (rowP u ts bs) := by
+  unfold rowP
+  have h1 := skipCellsP_np ts.length bs
+  split
+  · rename_i s he; exact (npo_fwd h1 he).elim
+  · npo_leaf
+  · rename_i cells rest _
+    npo_via (decCellsP_np u ts 0 cells (by omega))
+
+theorem rowsP_np (u : Bytes → Bool) (ts : List CqlTy) (hts : ts.length ≤ USIZE_MAX) :
+    ∀ (n : Nat) (bs : Bytes), NPo (rowsP u ts n bs)
+  | 0, _ => by unfold rowsP; npo_leaf
+  | n + 1, bs => by
+    unfold rowsP
+    have h1 := rowP_np u ts hts bs
+    split
+    · rename_i s he; exact (npo_fwd h1 he).elim
+    · npo_leaf
+    · rename_i vs rest _
+      npo_via (rowsP_np u ts hts n rest)
 
 /-! ### what is materialised is bounded by what is consumed -/
 
@@ -563,5 +576,56 @@ theorem sizeForVectorSat_pos : ∀ (t : CqlTy), DimsPos t → ∀ s, sizeForVect
   | .map _ _, _, s, h => by simp [sizeForVectorSat] at h
   | .tuple _, _, s, h => by simp [sizeForVectorSat] at h
   | .udt _ _ _, _, s, h => by simp [sizeForVectorSat] at h
+
+/-! ### the overridden iterator methods -/
+
+theorem vecNextFixedP_np (f : Bytes → Out CqlVal) (hf : FNP f) (size remaining : Nat) (bs : Bytes) :
+    NPo (vecNextFixedP f size remaining bs) := by
+  unfold vecNextFixedP
+  split
+  · npo_leaf
+  · have h1 := readNP_np size bs
+    split
+    · rename_i s he; exact (npo_fwd h1 he).elim
+    · npo_leaf
+    · npo_leaf
+    · split
+      · rename_i s he; exact (npo_fwd (hf _) he).elim
+      · npo_leaf
+      · npo_leaf
+
+/-- `VectorIterator::nth` never panics (fixed code): the product saturates, and `n < remaining` guards both
+subtractions and `n + 1`. -/
+theorem vecNthFixedP_np (f : Bytes → Out CqlVal) (hf : FNP f) (size remaining n : Nat) (bs : Bytes)
+    (hr : remaining ≤ USIZE_MAX) : NPo (vecNthFixedP f size remaining n bs) := by
+  unfold vecNthFixedP
+  split
+  · npo_leaf
+  · rename_i hn
+    split
+    · simp only []
+      have h1 := readNP_np (min (n * size) USIZE_MAX) bs
+      split
+      · rename_i s he; exact (npo_fwd h1 he).elim
+      · split
+        · omega
+        · split
+          · omega
+          · npo_leaf
+      · split
+        · omega
+        · exact vecNextFixedP_np f hf size _ _
+    · exact vecNextFixedP_np f hf size _ _
+
+theorem vecSizeHintP_np (remaining : Nat) : NPo (vecSizeHintP remaining) := by
+  unfold vecSizeHintP; simp only [ne_eq, not_true_eq_false, if_false]; npo_leaf
+
+theorem mapSizeHintP_np (r : Nat) : NPo (mapSizeHintP r) := by
+  unfold mapSizeHintP
+  have := vecSizeHintP_np r
+  split
+  · rename_i s he; exact (npo_fwd this he).elim
+  · npo_leaf
+  · npo_leaf
 
 end ScyllaVerif.C08V
